@@ -432,7 +432,7 @@ def judge_history(ctx, kind, profile, ops, sample=False, route_back=False, gw_ro
 
 
 def run(ctx):
-    n = ctx.scale(420, 10000)
+    n = ctx.scale(420, 200000)
     ctx.rule = (f"{n} generated histories (profiles lossy/adversarial/wrap/mixed, 20-80 ops, gaps around the 2 s timer) spread over "
                 f"{KINDS} x client route_back on/off x server data endpoint as address / route-back HPAI x (no burst | server frames in one burst with every ConnectResponse: same callback or call_soon); distinct = (endpoint, string of reference verdicts with the first frame of each connection marked)")
     ctx.require("frames_injected", "acks_observed", "frames_passed_up",
